@@ -401,8 +401,30 @@ def sndRaw : List String := {_strs(sorted(raw))}
 """
 
 
+def _smd(repo):
+    tree = ast.parse((repo / 'src/srctools/smd.py').read_text(encoding='utf-8'))
+    ex = _func(tree, 'export', 'Mesh')
+    lits = []
+    for n in ast.walk(ex):
+        if isinstance(n, ast.Constant) and isinstance(n.value, bytes):
+            lits.append((n.lineno, n.col_offset, n.value.decode('latin1')))
+    lits = [t for _, _, t in sorted(lits)]
+    todo = [ast.unparse(n.value).replace(' ', '') for n in ast.walk(ex)
+            if isinstance(n, ast.AnnAssign) and isinstance(n.target, ast.Name) and n.target.id == 'todo']
+    cond = [ast.unparse(n.test).replace(' ', '') for n in ast.walk(ex) if isinstance(n, ast.If)]
+    tri = _func(tree, '_parse_smd_tri', 'Mesh')
+    tconds = [ast.unparse(n.test).replace(' ', '') for n in ast.walk(tri) if isinstance(n, ast.If)]
+    return f"""/-- Mesh.export: every bytes literal (format strings), in source order; the work list; the conditions. -/
+def smdExportFmts : List String := {_strs(lits)}
+def smdTodo : List String := {_strs(todo)}
+def smdExportConds : List String := {_strs(cond)}
+/-- Mesh._parse_smd_tri: its conditions. -/
+def smdTriConds : List String := {_strs(tconds)}
+"""
+
+
 def generate(repo):
     return ("import Srctools.Model.C20\n"
             "/-! GENERATED by tools/gen_c20.py from src/srctools/{cmdseq,choreo,vmt,sndscript}.py — do not edit. -/\n"
-            "namespace Gen.C20\n\n" + _cmdseq(repo) + "\n" + _choreo(repo) + "\n" + _bvcd(repo) + "\n" + _vmt(repo) + "\n" + _snd(repo) +
+            "namespace Gen.C20\n\n" + _cmdseq(repo) + "\n" + _choreo(repo) + "\n" + _bvcd(repo) + "\n" + _vmt(repo) + "\n" + _snd(repo) + "\n" + _smd(repo) +
             "\nend Gen.C20\n")
